@@ -387,6 +387,9 @@ def r01_6(ctx):
             hc = ai.call_function(meths['hex'], [m, ':'], {})
             back = ai.call_function(fh, [ClassRef(cls), h], {'time': tmark})
             back2 = ai.call_function(fh, [ClassRef(cls), hc], {'time': tmark, 'sep': ':'})
+            # a separator that contains whitespace next to other characters (the same separator on both sides)
+            back3 = ai.call_function(fh, [ClassRef(cls), ai.call_function(meths['hex'], [m, ',\n'], {})], {'time': tmark, 'sep': ',\n'})
+            holder['back3'] = back3
             return ref, b, bn, h, hc, back, back2
         outs = ai.explore(thunk)
         wb, wh, wf = ctx.where(meths['bytes']), ctx.where(meths['hex']), ctx.where(fh)
@@ -417,7 +420,7 @@ def r01_6(ctx):
             except AbsRaise:
                 why = f'{label} gives {text!r}, which is not a sequence of two-digit hex pairs separated by {sep or "whitespace"!r}'
             ctx.require(ok, 'R01.6', f'{label}({t})', wh, why, construct=f'{meths["hex"].qname}::format')
-        for bk, label in ((back, 'from_hex(hex())'), (back2, "from_hex(hex(':'), sep=':')")):
+        for bk, label in ((back, 'from_hex(hex())'), (back2, "from_hex(hex(':'), sep=':')"), (holder.get('back3'), "from_hex(hex(',\\n'), sep=',\\n')")):
             ok = isinstance(bk, AObj) and bk.attrs.get('time') is tmark and bk.attrs.get('type') == t and all(
                 wire.value_equal(bk.attrs.get(k), v) or (isinstance(v, AList) and isinstance(bk.attrs.get(k), AList)
                                                          and wire.items_equal(bk.attrs[k].items, v.items))
